@@ -39,9 +39,9 @@ import ast
 import re
 from typing import Dict, List, Optional, Tuple
 
-from ..cfg import Branch, atoms, cfg_of, origins
+from ..cfg import Branch, atoms, cfg_of, names_in, origins
 from ..grammar import load_grammar
-from ..index import AnalysisError, FuncNode, call_name, calls_in, const, kwarg, last_attr, norm, short, walk_local
+from ..index import AnalysisError, FuncNode, arg_of, call_name, calls_in, const, kwarg, last_attr, norm, short, walk_local
 from ..rx_lex import EMPTY, CharSet, PatternInfo, analyse, analyse_literal, char_name
 
 SELFTEST_NEEDS_FILES = True
@@ -81,20 +81,33 @@ def _flags_value(expr: ast.AST, func: ast.AST) -> Optional[int]:
 def last_resort(repo) -> dict:
     """Pattern, flags and segment class of the last-resort matcher, from the source."""
     init = repo.fn(LEXER, "PyLexer.__init__")
+    icfg = cfg_of(init)
     cands = []
     for st in walk_local(init):
         if isinstance(st, (ast.Assign, ast.AnnAssign)):
             tgts = st.targets if isinstance(st, ast.Assign) else [st.target]
             if any(isinstance(t, ast.Attribute) and t.attr == "last_resort_lexer" for t in tgts) and st.value is not None:
-                for c in [n for n in ast.walk(st.value) if isinstance(n, ast.Call)]:
-                    if last_attr(c) in ("RegexLexer", "StringLexer"):
-                        cands.append(c)
+                # the default may be built in the assignment itself or reach it through a local
+                # (`if not last_resort_lexer: last_resort_lexer = RegexLexer(..)`): look at the
+                # value and at what its local names may hold here
+                exprs = [st.value]
+                for nm in [n for n in ast.walk(st.value) if isinstance(n, ast.Name)]:
+                    exprs += [o.expr for o in origins(icfg, nm, st) if o.kind == "expr" and isinstance(o.expr, ast.AST)]
+                for ex in exprs:
+                    for c in [n for n in ast.walk(ex) if isinstance(n, ast.Call)]:
+                        if last_attr(c) in ("RegexLexer", "StringLexer") and not any(c is x for x in cands):
+                            cands.append(c)
     if len(cands) != 1:
         raise AnalysisError(f"PyLexer.__init__: expected exactly one RegexLexer(...) default assigned to self.last_resort_lexer, found {len(cands)}")
     call = cands[0]
     kind = last_attr(call)
     tmpl = call.args[1] if len(call.args) > 1 else kwarg(call, "template")
     segc = call.args[2] if len(call.args) > 2 else kwarg(call, "segment_class")
+    if isinstance(tmpl, ast.Name):
+        # the literal passed through a local of __init__ (one definition, a plain string)
+        tos = origins(icfg, tmpl, icfg.stmt_of(call))
+        if len(tos) == 1 and tos[0].kind == "expr" and not tos[0].path:
+            tmpl = tos[0].expr
     if not (isinstance(tmpl, ast.Constant) and isinstance(tmpl.value, str)):
         raise AnalysisError("last-resort matcher pattern is not a string literal; cannot compute its character class")
     if not isinstance(segc, (ast.Name, ast.Attribute)):
@@ -102,7 +115,19 @@ def last_resort(repo) -> dict:
     flags = 0
     if kind == "RegexLexer":
         post = repo.fn(LEXER, "RegexLexer.__post_init__")
-        comp = [c for c in calls_in(post) if last_attr(c) == "compile" and c.args and norm(c.args[0]) == "self.template"]
+        pcfg = cfg_of(post)
+
+        def _is_template(e) -> bool:
+            if e is None:
+                return False
+            if norm(e) == "self.template":
+                return True
+            if isinstance(e, ast.Name):
+                os_ = origins(pcfg, e, pcfg.stmt_of(e))
+                return bool(os_) and all(o.kind == "expr" and not o.path and norm(o.expr) == "self.template" for o in os_)
+            return False
+
+        comp = [c for c in calls_in(post) if last_attr(c) == "compile" and _is_template(arg_of(c, 0, "pattern"))]
         if len(comp) != 1:
             raise AnalysisError("RegexLexer.__post_init__: regex.compile(self.template, ...) not found")
         fexpr = comp[0].args[1] if len(comp[0].args) > 1 else kwarg(comp[0], "flags")
@@ -287,10 +312,10 @@ def r01b(chk, repo, lr) -> None:
             good = bool(vos)
             for o in vos:
                 e = o.expr
-                if not (o.kind == "expr" and not o.path and isinstance(e, ast.Call) and last_attr(e) == "violations_from_segments" and len(e.args) == 1 and not e.keywords):
+                a = arg_of(e, 0, "segments") if isinstance(e, ast.Call) else None
+                if not (o.kind == "expr" and not o.path and isinstance(e, ast.Call) and last_attr(e) == "violations_from_segments" and a is not None and len(e.args) + len(e.keywords) == 1):
                     good = False
                     break
-                a = e.args[0]
                 at = o.stmt if o.stmt is not None else r
                 if _origin_ids(cfg, a, at) != _origin_ids(cfg, seg_e, r):
                     good = False
@@ -359,26 +384,41 @@ def r01b(chk, repo, lr) -> None:
             detail="lexer.lex guarded by except SQLLexError",
         )
         if handler is not None:
-            conv = False
             reraises = any(isinstance(n, ast.Raise) for n in walk_local(handler))
             hrets = [n for n in walk_local(handler) if isinstance(n, ast.Return)]
-            for c in calls_in(handler):
-                if last_attr(c) in ("append",) and handler.name and c.args and isinstance(c.args[0], ast.Name) and c.args[0].id == handler.name and isinstance(c.func.value, ast.Name):
-                    for r in hrets:
-                        if isinstance(r.value, ast.Tuple) and len(r.value.elts) == 2 and isinstance(r.value.elts[1], ast.Name) and r.value.elts[1].id == c.func.value.id:
-                            conv = True
+
+            def _hands_back(r) -> bool:
+                """second component of the return holds the caught error: a list display with
+                it, or a list it was appended to on every path to the return"""
+                if not (handler.name and isinstance(r.value, ast.Tuple) and len(r.value.elts) == 2):
+                    return False
+                second = r.value.elts[1]
+                if isinstance(second, ast.List):
+                    return any(isinstance(x, ast.Name) and x.id == handler.name for x in second.elts)
+                if not isinstance(second, ast.Name):
+                    return False
+                apps = [
+                    lcfg.stmt_of(c) for c in calls_in(handler)
+                    if last_attr(c) == "append" and len(c.args) == 1 and isinstance(c.args[0], ast.Name) and c.args[0].id == handler.name
+                    and isinstance(c.func, ast.Attribute) and isinstance(c.func.value, ast.Name) and c.func.value.id == second.id
+                ]
+                return any(a is not None and lcfg.dominates(a, r) for a in apps)
+
+            conv = bool(hrets) and all(_hands_back(r) for r in hrets)
             chk.require(
                 conv and not reraises, "R01b", handler,
                 "Linter._lex_templated_file: the SQLLexError handler does not append the caught error to the returned violations (or re-raises)",
                 detail="handler converts SQLLexError to a returned violation",
             )
         # (4) unpacked errors flow to the normal returns
-        tgt = lst.targets[0] if isinstance(lst, ast.Assign) and len(lst.targets) == 1 else None
-        err_name = seg_name = None
-        if isinstance(tgt, ast.Tuple) and len(tgt.elts) == 2 and all(isinstance(e, ast.Name) for e in tgt.elts) and lst.value is lc:
-            seg_name, err_name = tgt.elts[0].id, tgt.elts[1].id
-        chk.require(err_name is not None, "R01b", lc, "Linter._lex_templated_file: result of lexer.lex is not unpacked into (segments, errors)", detail="lex result unpacked")
-        if err_name is None:
+        # the result is bound: unpacked into (segments, errors) or kept whole in one local (its
+        # components are then recognised where they are used, see _lex_part)
+        tgt = lst.targets[0] if isinstance(lst, ast.Assign) and len(lst.targets) == 1 and lst.value is lc else None
+        if isinstance(lst, ast.AnnAssign) and lst.value is lc:
+            tgt = lst.target
+        bound = (isinstance(tgt, ast.Tuple) and len(tgt.elts) == 2 and all(isinstance(e, ast.Name) for e in tgt.elts)) or isinstance(tgt, ast.Name)
+        chk.require(bound, "R01b", lc, "Linter._lex_templated_file: result of lexer.lex is not unpacked into (segments, errors)", detail="lex result unpacked")
+        if not bound:
             continue
         in_handlers = {id(n) for t in ast.walk(lf) if isinstance(t, ast.Try) for h in t.handlers for n in ast.walk(h)}
         normal_rets = [r for r in _tuple_returns(lf) if id(r) not in in_handlers]
@@ -397,13 +437,11 @@ def r01b(chk, repo, lr) -> None:
                             src = st.value
                         elif isinstance(st, ast.Expr) and isinstance(st.value, ast.Call) and last_attr(st.value) == "extend" and isinstance(st.value.func, ast.Attribute) and norm(st.value.func.value) == ve.id and len(st.value.args) == 1:
                             src = st.value.args[0]
-                        if isinstance(src, ast.Name):
-                            so = origins(lcfg, src, st)
-                            if so and all(o.kind == "expr" and o.expr is lc and o.path == (1,) for o in so):
-                                adders.append(st)
-                    direct = ve.id == err_name
+                        if src is not None and _lex_part(lcfg, src, st, lc, 1):
+                            adders.append(st)
+                    direct = _lex_part(lcfg, ve, r, lc, 1)
                     if direct:
-                        ok = all(o.kind == "expr" and o.expr is lc for o in origins(lcfg, ve, r))
+                        ok = True
                     elif adders:
                         # must-pass: no path from the lex statement to this return avoids every adder
                         ok = not lcfg.paths_avoiding(lst, r, lambda n: any(n is a for a in adders))
@@ -412,7 +450,9 @@ def r01b(chk, repo, lr) -> None:
                         for o in origins(lcfg, ve, r):
                             if o.kind == "aug":
                                 continue
-                            if o.kind == "expr" and (o.expr is lc or (isinstance(o.expr, ast.List) and not o.expr.elts)):
+                            if o.kind == "expr" and ((o.expr is lc and o.path == (1,)) or (isinstance(o.expr, ast.List) and not o.expr.elts and not o.path)):
+                                continue
+                            if o.kind == "expr" and isinstance(o.expr, ast.Subscript) and not o.path and _lex_part(lcfg, o.expr, o.stmt, lc, 1):
                                 continue
                             ok = False
                             why = f"the returned error list is re-bound to {short(o.expr, 60)!r}"
@@ -431,7 +471,53 @@ def r01b(chk, repo, lr) -> None:
             chk.require(ok, "R01b", r, f"Linter._lex_templated_file: {why}; LXR errors would be dropped", detail="returned errors include everything lexer.lex reported")
             # token filter: only meta segments may be skipped
             if isinstance(r.value, ast.Tuple) and len(r.value.elts) == 2 and isinstance(r.value.elts[0], ast.Name):
-                _token_filter(chk, lf, lcfg, r, r.value.elts[0], seg_name, lc)
+                _token_filter(chk, lf, lcfg, r, r.value.elts[0], lc)
+
+
+def _atoms_at(cfg, test, polarity, at, _depth=0):
+    """``atoms`` of a test evaluated at statement ``at``, looking through boolean locals:
+    for ``t = a and b`` ... ``if t:`` the atoms are those of ``a and b``.  Only when the one
+    definition of ``t`` reaches the test and no name its expression reads is re-bound in
+    between (same reaching definitions at both statements), so the facts still speak about
+    the same values."""
+    out = []
+    rd = cfg.reaching()
+    for e, pol in atoms(test, polarity):
+        if isinstance(e, ast.Name) and _depth < 4:
+            os_ = origins(cfg, e, at)
+            if len(os_) == 1 and os_[0].kind == "expr" and not os_[0].path and os_[0].stmt is not None and isinstance(os_[0].expr, (ast.BoolOp, ast.UnaryOp, ast.Compare, ast.Call, ast.Attribute)):
+                o = os_[0]
+                if all(rd.defs_at(o.stmt, n) == rd.defs_at(at, n) for n in names_in(o.expr)):
+                    out += _atoms_at(cfg, o.expr, pol, o.stmt, _depth + 1)
+                    continue
+        out.append((e, pol))
+    return out
+
+
+def _branch_atoms(cfg, br):
+    if not isinstance(br.stmt, (ast.If, ast.While)):
+        return []
+    return _atoms_at(cfg, br.stmt.test, br.polarity, br.stmt)
+
+
+def _lex_part(cfg, e, at, lex_call, idx) -> bool:
+    """``e`` (evaluated at ``at``) is component ``idx`` of the value of ``lex_call`` (``idx`` None:
+    the whole pair): unpacked by position, or kept whole in a local and subscripted."""
+    if e is lex_call:
+        return idx is None
+    if isinstance(e, ast.Subscript):
+        return idx is not None and const(e.slice) in (idx, idx - 2) and _lex_part(cfg, e.value, at, lex_call, None)
+    if isinstance(e, ast.Name):
+        os_ = origins(cfg, e, at)
+        want = () if idx is None else (idx,)
+        return bool(os_) and all(
+            o.kind == "expr" and (
+                (o.expr is lex_call and o.path == want)
+                or (not o.path and isinstance(o.expr, ast.Subscript) and _lex_part(cfg, o.expr, o.stmt, lex_call, idx))
+            )
+            for o in os_
+        )
+    return False
 
 
 def _loop_entry(cfg, loop):
@@ -495,10 +581,23 @@ def _error_site(vf, vcfg, params, c):
                     return True, "", tts
         return False, "the list of created errors is not what the function returns", tts
     # (a) loop with append
-    st = vcfg.stmt_of(c)
-    app = getattr(c, "_parent", None)
-    if not (isinstance(app, ast.Call) and last_attr(app) == "append" and isinstance(app.func, ast.Attribute) and isinstance(app.func.value, ast.Name) and app.args and app.args[0] is c):
+    # the append that receives this error: ``L.append(SQLLexError(..))`` or, with the error held
+    # in a local first, the one ``L.append(<name>)`` whose argument can only be this creation
+    apps = []
+    for a in calls_in(vf):
+        if not (last_attr(a) == "append" and isinstance(a.func, ast.Attribute) and isinstance(a.func.value, ast.Name) and len(a.args) == 1 and not a.keywords):
+            continue
+        arg = a.args[0]
+        if arg is c:
+            apps.append(a)
+        elif isinstance(arg, ast.Name):
+            ao = origins(vcfg, arg, vcfg.stmt_of(a))
+            if ao and all(o.kind == "expr" and not o.path and o.expr is c for o in ao):
+                apps.append(a)
+    if len(apps) != 1:
         return False, "the created error is not appended to a list", tts
+    app = apps[0]
+    st = vcfg.stmt_of(app)
     loop = st
     while loop is not None and not isinstance(loop, ast.For):
         loop = getattr(loop, "_parent", None)
@@ -510,13 +609,12 @@ def _error_site(vf, vcfg, params, c):
     var = loop.target.id
 
     def not_that_type(br):
-        return isinstance(br.stmt, (ast.If, ast.While)) and any((not pol) and _is_type_call(e, var) for e, pol in atoms(br.stmt.test, br.polarity))
+        return any((not pol) and _is_type_call(e, var) for e, pol in _branch_atoms(vcfg, br))
 
     for gd in vcfg.guards(st):
-        if isinstance(gd.stmt, (ast.If, ast.While)):
-            for e, pol in atoms(gd.stmt.test, gd.polarity):
-                if pol and _is_type_call(e, var):
-                    tts.append([const(a) for a in e.args])
+        for e, pol in _branch_atoms(vcfg, gd):
+            if pol and _is_type_call(e, var):
+                tts.append([const(a) for a in e.args])
     if not _skips_only_through(vcfg, loop, st, not_that_type):
         conds = " and ".join(("" if pol else "not ") + short(e, 60) for e, pol in vcfg.conditions(st) if not (isinstance(e, ast.Constant) and e.value is True))
         return False, f"a segment can be passed over although {var}.is_type(<unlexable type>) holds (error created under: {conds or 'unconditional'})", tts
@@ -532,11 +630,69 @@ def _error_site(vf, vcfg, params, c):
     return False, "the list the errors are appended to is not what the function returns", tts
 
 
-def _token_filter(chk, lf, lcfg, ret, tok_expr: ast.Name, seg_name: str, lex_call) -> None:
+def _is_seg_var(lcfg, x, at, var) -> bool:
+    """``x`` is the segment held by ``var`` (directly, through ``cast(T, var)`` or a local of that)."""
+    if isinstance(x, ast.Name) and x.id == var:
+        return True
+    if isinstance(x, ast.Call) and call_name(x).split(".")[-1] == "cast" and len(x.args) == 2:
+        return _is_seg_var(lcfg, x.args[1], at, var)
+    if isinstance(x, ast.Name):
+        os2 = origins(lcfg, x, at)
+        return bool(os2) and all(o.kind == "expr" and not o.path and _is_seg_var(lcfg, o.expr, o.stmt, var) for o in os2)
+    return False
+
+
+def _meta_fact(facts, var) -> bool:
+    """the facts (atoms known when a segment is skipped) include ``<var>.is_meta``"""
+    return any(pol and isinstance(e, ast.Attribute) and e.attr == "is_meta" and isinstance(e.value, ast.Name) and e.value.id == var for e, pol in facts)
+
+
+def _indent_fact(lcfg, facts, at, var) -> bool:
+    """... include ``<var>.indent_val != 0`` (as a comparison with 0 or as truthiness)"""
+    for e, pol in facts:
+        if isinstance(e, ast.Attribute) and e.attr == "indent_val" and pol and _is_seg_var(lcfg, e.value, at, var):
+            return True
+        if isinstance(e, ast.Compare) and len(e.ops) == 1 and isinstance(e.left, ast.Attribute) and e.left.attr == "indent_val" and const(e.comparators[0]) == 0 and _is_seg_var(lcfg, e.left.value, at, var):
+            if (isinstance(e.ops[0], ast.NotEq) and pol) or (isinstance(e.ops[0], ast.Eq) and not pol):
+                return True
+    return False
+
+
+def _token_filter(chk, lf, lcfg, ret, tok_expr: ast.Name, lex_call) -> None:
     """The returned token list keeps every non-meta segment coming out of lexer.lex."""
     os_ = origins(lcfg, tok_expr, ret)
-    if all(o.kind == "expr" and o.expr is lex_call and o.path == (0,) for o in os_) and os_:
+    if _lex_part(lcfg, tok_expr, ret, lex_call, 0):
         chk.ok("R01b", f"{LINTER}::Linter._lex_templated_file", "tokens returned as lexed")
+        return
+    if len(os_) == 1 and os_[0].kind == "expr" and not os_[0].path and isinstance(os_[0].expr, ast.ListComp):
+        # the filter spelled as a comprehension: ``[s for s in <lexed segments> if <keep test>]``;
+        # a segment is left out when some ``if`` is false, and that must imply the same two facts
+        comp, cst = os_[0].expr, os_[0].stmt
+        ok, why = True, ""
+        gen = comp.generators[0]
+        if len(comp.generators) != 1 or gen.is_async or not isinstance(gen.target, ast.Name):
+            ok, why = False, "the returned token list is not built by a single loop over the lexed segments"
+        elif not _lex_part(lcfg, gen.iter, cst, lex_call, 0):
+            ok, why = False, "the filter loop does not iterate over the segments returned by lexer.lex"
+        elif not (isinstance(comp.elt, ast.Name) and comp.elt.id == gen.target.id):
+            ok, why = False, "something other than the lexed segment is kept"
+        else:
+            var = gen.target.id
+            for t in gen.ifs:
+                facts = atoms(t, False)
+                if not _meta_fact(facts, var):
+                    ok, why = False, f"a lexed token can be left out of the returned list without the test {var}.is_meta being true (only template-indent metas may be filtered)"
+                    break
+                if not _indent_fact(lcfg, facts, cst, var):
+                    ok, why = False, (
+                        f"a meta segment can be left out of the returned list without the test <{var}>.indent_val != 0 being true: only Indent/Dedent may be "
+                        "filtered; a template placeholder dropped here leaves the source characters of its tag covered by no token and no placeholder"
+                    )
+                    break
+        chk.require(
+            ok, "R01b", ret, f"Linter._lex_templated_file: {why}; an unlexable token could be dropped from the token stream",
+            detail="token filter only skips meta segments",
+        )
         return
     appends = [
         c for c in calls_in(lf)
@@ -553,8 +709,7 @@ def _token_filter(chk, lf, lcfg, ret, tok_expr: ast.Name, seg_name: str, lex_cal
             ok, why = False, "tokens are not appended in a loop over the lexed segments"
             break
         var = loop.target.id
-        io = origins(lcfg, loop.iter, loop)
-        if not (io and all(o.kind == "expr" and o.expr is lex_call and o.path == (0,) for o in io)):
+        if not _lex_part(lcfg, loop.iter, loop, lex_call, 0):
             ok, why = False, "the filter loop does not iterate over the segments returned by lexer.lex"
             break
         if not (len(ap.args) == 1 and isinstance(ap.args[0], ast.Name) and ap.args[0].id == var):
@@ -563,10 +718,7 @@ def _token_filter(chk, lf, lcfg, ret, tok_expr: ast.Name, seg_name: str, lex_cal
         # every way of finishing an iteration without the append must have passed a test that
         # is only true for meta segments (`<segment>.is_meta`): the template-indent filter
         def meta_only(br, var=var):
-            return isinstance(br.stmt, (ast.If, ast.While)) and any(
-                pol and isinstance(e, ast.Attribute) and e.attr == "is_meta" and isinstance(e.value, ast.Name) and e.value.id == var
-                for e, pol in atoms(br.stmt.test, br.polarity)
-            )
+            return _meta_fact(_branch_atoms(lcfg, br), var)
 
         if not _skips_only_through(lcfg, loop, st, meta_only):
             ok, why = False, f"a lexed token can be left out of the returned list without the test {var}.is_meta being true (only template-indent metas may be filtered)"
@@ -574,26 +726,8 @@ def _token_filter(chk, lf, lcfg, ret, tok_expr: ast.Name, seg_name: str, lex_cal
 
         # ... and, among the metas, only Indent/Dedent (indent_val != 0): a template placeholder is a
         # zero-width meta too, but it is what covers the source characters of a template tag
-        def _is_var(x, at, var=var):
-            if isinstance(x, ast.Name) and x.id == var:
-                return True
-            if isinstance(x, ast.Call) and call_name(x).split(".")[-1] == "cast" and len(x.args) == 2:
-                return _is_var(x.args[1], at)
-            if isinstance(x, ast.Name):
-                os2 = origins(lcfg, x, at)
-                return bool(os2) and all(o.kind == "expr" and not o.path and _is_var(o.expr, o.stmt) for o in os2)
-            return False
-
-        def indent_only(br):
-            if not isinstance(br.stmt, (ast.If, ast.While)):
-                return False
-            for e, pol in atoms(br.stmt.test, br.polarity):
-                if isinstance(e, ast.Attribute) and e.attr == "indent_val" and pol and _is_var(e.value, br.stmt):
-                    return True
-                if isinstance(e, ast.Compare) and len(e.ops) == 1 and isinstance(e.left, ast.Attribute) and e.left.attr == "indent_val" and const(e.comparators[0]) == 0 and _is_var(e.left.value, br.stmt):
-                    if (isinstance(e.ops[0], ast.NotEq) and pol) or (isinstance(e.ops[0], ast.Eq) and not pol):
-                        return True
-            return False
+        def indent_only(br, var=var):
+            return isinstance(br.stmt, (ast.If, ast.While)) and _indent_fact(lcfg, _branch_atoms(lcfg, br), br.stmt, var)
 
         if not _skips_only_through(lcfg, loop, st, indent_only):
             ok, why = False, (
@@ -640,18 +774,157 @@ ANSI = "src/sqlfluff/dialects/dialect_ansi.py"
 TSQL = "src/sqlfluff/dialects/dialect_tsql.py"
 PG = "src/sqlfluff/dialects/dialect_postgres.py"
 
+_LR_OLD = '        self.last_resort_lexer = last_resort_lexer or RegexLexer(\n            "<unlexable>",\n            r"[^\\t\\n\\ ]*",\n            UnlexableSegment,\n        )\n'
+_VFS_OLD = (
+    '            if segment.is_type("unlexable"):\n'
+    "                violations.append(\n"
+    "                    SQLLexError(\n"
+    '                        "Unable to lex characters: {!r}".format(\n'
+    '                            segment.raw[:10] + "..."\n'
+    "                            if len(segment.raw) > 9\n"
+    "                            else segment.raw\n"
+    "                        ),\n"
+    "                        pos=segment.pos_marker,\n"
+    "                    )\n"
+    "                )\n"
+)
+_FILTER_OLD = (
+    "            if segment.is_meta:\n                meta_segment = cast(\"MetaSegment\", segment)\n                if meta_segment.indent_val != 0:\n"
+    "                    # Don't allow it if we're not linting templating block indents.\n                    if not templating_blocks_indent:\n"
+    "                        continue  # pragma: no cover\n"
+)
+
 VARIANTS = [
+    # behaviour-preserving refactors: must stay quiet
+    Variant(
+        "quiet-indent-filter-single-condition", LINTER, _FILTER_OLD,
+        "            if segment.is_meta and cast(\"MetaSegment\", segment).indent_val != 0 and not templating_blocks_indent:\n                continue\n",
+        "QUIET", None, "the three nested tests spelled as one conjunction",
+    ),
+    Variant(
+        "quiet-indent-filter-test-in-a-local", LINTER, _FILTER_OLD,
+        "            drop = segment.is_meta and cast(\"MetaSegment\", segment).indent_val != 0 and not templating_blocks_indent\n            if drop:\n                continue\n",
+        "QUIET", None, "the filter test hoisted into a boolean local",
+    ),
+    Variant(
+        "quiet-indent-filter-comprehension", LINTER,
+        "        new_segments = []\n        for segment in segments:\n" + _FILTER_OLD + "            new_segments.append(segment)\n",
+        "        new_segments = [\n            seg for seg in segments\n            if not (seg.is_meta and cast(\"MetaSegment\", seg).indent_val != 0 and not templating_blocks_indent)\n        ]\n",
+        "QUIET", None, "filter loop spelled as a list comprehension",
+    ),
+    Variant(
+        "quiet-indent-filter-truthiness-if-else", LINTER,
+        _FILTER_OLD + "            new_segments.append(segment)\n",
+        "            if segment.is_meta and cast(\"MetaSegment\", segment).indent_val and not templating_blocks_indent:\n                pass\n            else:\n                new_segments.append(segment)\n",
+        "QUIET", None, "indent_val != 0 as truthiness (it is an int), continue spelled as if/else",
+    ),
+    Variant(
+        "quiet-lex-result-kept-whole", LINTER,
+        "            segments, lex_vs = lexer.lex(templated_file)\n",
+        "            lexed = lexer.lex(templated_file)\n            segments = lexed[0]\n            lex_vs = lexed[1]\n",
+        "QUIET", None, "lexer.lex result kept whole and subscripted",
+    ),
+    Variant(
+        "quiet-lex-errors-extend-renamed", LINTER,
+        "            segments, lex_vs = lexer.lex(templated_file)\n            # NOTE: There will always be segments, even if it's\n            # just an end of file marker.\n            assert segments, \"The token sequence should never be empty.\"\n            # We might just get the violations as a list\n            violations += lex_vs\n",
+        "            segments, lexing_errors = lexer.lex(templated_file)\n            violations.extend(lexing_errors)\n            assert segments, \"The token sequence should never be empty.\"\n",
+        "QUIET", None, "renamed local, += spelled as extend, independent statements reordered (an AssertionError escapes either way)",
+    ),
+    Variant(
+        "quiet-handler-returns-fresh-list", LINTER,
+        "            violations.append(err)\n            return None, violations\n\n        # Check that we've got sensible indentation from the lexer.",
+        "            return None, [err]\n\n        # Check that we've got sensible indentation from the lexer.",
+        "QUIET", None, "only lexer.lex raises SQLLexError, before anything was added: the list holds exactly the caught error",
+    ),
+    Variant(
+        "quiet-last-resort-keywords", LEXER, _LR_OLD,
+        '        self.last_resort_lexer = last_resort_lexer or RegexLexer(\n            name="<unlexable>",\n            template=r"[^\\t\\n\\ ]*",\n            segment_class=UnlexableSegment,\n        )\n',
+        "QUIET", None, "positional arguments spelled as keywords",
+    ),
+    Variant(
+        "quiet-last-resort-default-through-if", LEXER, _LR_OLD,
+        '        if not last_resort_lexer:\n            last_resort_lexer = RegexLexer("<unlexable>", r"[^\\t\\n\\ ]*", UnlexableSegment)\n        self.last_resort_lexer = last_resort_lexer\n',
+        "QUIET", None, "`a or default` spelled as an if on the parameter",
+    ),
+    Variant(
+        "quiet-last-resort-pattern-in-a-local", LEXER, _LR_OLD,
+        '        unlexable_pattern = r"[^\\t\\n\\ ]*"\n        self.last_resort_lexer = last_resort_lexer or RegexLexer(\n            "<unlexable>",\n            unlexable_pattern,\n            UnlexableSegment,\n        )\n',
+        "QUIET", None, "pattern literal passed through a local",
+    ),
+    Variant(
+        "quiet-post-init-template-local-flags-keyword", LEXER,
+        "        flags = regex.DOTALL\n        self._compiled_regex = regex.compile(self.template, flags)\n",
+        "        pattern = self.template\n        self._compiled_regex = regex.compile(pattern, flags=regex.DOTALL)\n",
+        "QUIET", None, "template through a local, flags inlined as a keyword",
+    ),
+    Variant(
+        "quiet-lex-return-inline-keyword", LEXER,
+        "        violations: list[SQLLexError] = self.violations_from_segments(segments)\n\n        return segments, violations\n",
+        "        return segments, self.violations_from_segments(segments=segments)\n",
+        "QUIET", None, "violations local inlined into the return, keyword argument",
+    ),
+    Variant(
+        "quiet-violations-early-continue", LEXER, _VFS_OLD,
+        '            if not segment.is_type("unlexable"):\n                continue\n'
+        '            text = segment.raw[:10] + "..." if len(segment.raw) > 9 else segment.raw\n'
+        '            violations.append(SQLLexError("Unable to lex characters: {!r}".format(text), pos=segment.pos_marker))\n',
+        "QUIET", None, "guard spelled as an early continue",
+    ),
+    Variant(
+        "quiet-violations-error-and-test-through-locals", LEXER, _VFS_OLD,
+        '            unlexable = segment.is_type("unlexable")\n'
+        "            if unlexable:\n"
+        '                text = segment.raw[:10] + "..." if len(segment.raw) > 9 else segment.raw\n'
+        '                err = SQLLexError("Unable to lex characters: {!r}".format(text), pos=segment.pos_marker)\n'
+        "                violations.append(err)\n",
+        "QUIET", None, "type test and created error each held in a local first",
+    ),
+    Variant(
+        "quiet-violations-comprehension-assigned", LEXER,
+        "        violations = []\n        for segment in segments:\n" + _VFS_OLD + "        return violations\n",
+        "        errors = [\n"
+        '            SQLLexError("Unable to lex characters: {!r}".format(seg.raw[:10] + "..." if len(seg.raw) > 9 else seg.raw), pos=seg.pos_marker)\n'
+        '            for seg in segments if seg.is_type("unlexable")\n'
+        "        ]\n        return errors\n",
+        "QUIET", None, "loop spelled as a comprehension",
+    ),
+    # the same refactored spellings with the property broken: must still be reported
+    Variant(
+        "filter-comprehension-drops-every-meta", LINTER,
+        "        new_segments = []\n        for segment in segments:\n" + _FILTER_OLD + "            new_segments.append(segment)\n",
+        "        new_segments = [seg for seg in segments if not (seg.is_meta and not templating_blocks_indent)]\n",
+        "R01b", "_lex_templated_file", "comprehension spelling that also drops template placeholders",
+    ),
+    Variant(
+        "filter-test-in-a-local-drops-every-meta", LINTER, _FILTER_OLD,
+        "            drop = segment.is_meta and not templating_blocks_indent\n            if drop:\n                continue\n",
+        "R01b", "_lex_templated_file", "hoisted test that lost the indent_val conjunct",
+    ),
+    Variant(
+        "handler-returns-empty-list", LINTER,
+        "            violations.append(err)\n            return None, violations\n\n        # Check that we've got sensible indentation from the lexer.",
+        "            return None, []\n\n        # Check that we've got sensible indentation from the lexer.",
+        "R01b", "_lex_templated_file", "the caught SQLLexError is swallowed",
+    ),
+    Variant(
+        "lex-result-kept-whole-wrong-component", LINTER,
+        "            segments, lex_vs = lexer.lex(templated_file)\n",
+        "            lexed = lexer.lex(templated_file)\n            segments = lexed[0]\n            lex_vs = lexed[0]\n",
+        "R01b", "_lex_templated_file", "subscripted spelling that forwards the wrong component",
+    ),
+    Variant(
+        "violations-test-local-rebound-before-use", LEXER, _VFS_OLD,
+        '            unlexable = segment.is_type("unlexable")\n'
+        "            unlexable = unlexable and len(segment.raw) > 1\n"
+        "            if unlexable:\n"
+        '                violations.append(SQLLexError("Unable to lex characters: {!r}".format(segment.raw), pos=segment.pos_marker))\n',
+        "R01b", "violations_from_segments", "test held in a local and narrowed before it is used",
+    ),
     Variant(
         "indent-filter-also-drops-block-placeholders", LINTER,
         "                if meta_segment.indent_val != 0:\n",
         "                if meta_segment.indent_val != 0 or meta_segment.block_uuid:\n",
         "R01b", "_lex_templated_file", "seeded C01-2: placeholders of {% %} tags vanish when the template indents do not balance",
-    ),
-    Variant(
-        "quiet-indent-filter-single-condition", LINTER,
-        "            if segment.is_meta:\n                meta_segment = cast(\"MetaSegment\", segment)\n                if meta_segment.indent_val != 0:\n                    # Don't allow it if we're not linting templating block indents.\n                    if not templating_blocks_indent:\n                        continue  # pragma: no cover\n",
-        "            if segment.is_meta and cast(\"MetaSegment\", segment).indent_val != 0 and not templating_blocks_indent:\n                continue\n",
-        "QUIET", None, "the three nested tests spelled as one conjunction",
     ),
     Variant(
         "tsql-whitespace-excludes-tab", TSQL,
